@@ -128,5 +128,62 @@ def Doc.identKeys (D : Doc) (retrieval : Uri.Url) : List (String × NodeId) :=
 def Doc.uniqueIds (D : Doc) (retrieval : Uri.Url) : Bool :=
   D.depthOk && (D.identKeys retrieval).all fun a => (D.identKeys retrieval).all fun b => a.1 != b.1 || a.2 == b.2
 
+
+/-! ### several documents: a Loader whose documents are all present
+
+`top` is the schema Resolve is called on, `b` its retrieval URI, and every document is read under one draft
+`dr`.  A document is *named* by its retrieval URI (for a Loader document: a URL whose string is its key in the
+Loader table) and by the URI its root `$id` gives it. -/
+
+/-- `key` names document `x`: as a URI identifying the root of the top document, or of a Loader document retrieved
+    from `u` (`Uri.toString u` being its key in the table) -/
+def NameOf (env : Env) (top : NodeId) (dr : Draft) (b : Uri.Url) (key : String) (x : NodeId) : Prop :=
+  (x = top ∧ (⟨env.st, dr, top⟩ : Doc).Identifies b key top) ∨
+  (∃ tbl u, env.loader = some tbl ∧ Json.lookup (Uri.toString u) tbl = some (.doc x) ∧
+    (⟨env.st, dr, x⟩ : Doc).Identifies u key x)
+
+/-- no URI names two documents -/
+def Coherent (env : Env) (top : NodeId) (dr : Draft) (b : Uri.Url) : Prop :=
+  ∀ key x y, NameOf env top dr b key x → NameOf env top dr b key y → x = y
+
+/-- the document resolveRef finds for a fragment-less URI that identifies nothing in the referring document:
+    the top document under one of its names, or the Loader's document for that URI -/
+def NamedDoc (env : Env) (top : NodeId) (dr : Draft) (b : Uri.Url) (key : String) (x : NodeId) : Prop :=
+  (x = top ∧ (⟨env.st, dr, top⟩ : Doc).Identifies b key top) ∨
+  (∃ tbl, env.loader = some tbl ∧ Json.lookup key tbl = some (.doc x))
+
+/-- the reference `ref` in schema `id` of document `D` (retrieved from `ret`) designates something: in `D`
+    itself, or — when its fragment-less URI identifies nothing in `D` — in the document that URI names -/
+def Doc.RefGood (env : Env) (top : NodeId) (b : Uri.Url) (D : Doc) (ret : Uri.Url) (id : NodeId) (ref : String) :
+    Prop :=
+  ∃ bu refURI, D.BaseUri ret id bu ∧ Uri.parse ref = .ok refURI ∧
+    ((∃ r, D.Identifies ret (Uri.toString (Uri.dropFragment (Uri.resolveReference bu refURI))) r ∧
+        ∃ t, D.FragTarget r (Uri.resolveReference bu refURI).fragment t) ∨
+     ((∀ r, ¬ D.Identifies ret (Uri.toString (Uri.dropFragment (Uri.resolveReference bu refURI))) r) ∧
+        ∃ x, NamedDoc env top D.draft b (Uri.toString (Uri.dropFragment (Uri.resolveReference bu refURI))) x ∧
+          ∃ t, (⟨D.st, D.draft, x⟩ : Doc).FragTarget x (Uri.resolveReference bu refURI).fragment t))
+
+/-- one document of the universe is well-formed (W2–W6) and all its references are good -/
+structure DocWF (env : Env) (top : NodeId) (b : Uri.Url) (D : Doc) (ret : Uri.Url) : Prop where
+  frag : ret.fragment = ""
+  struct : structureOk D.st D.root = true
+  locals : localOk env D.root = true
+  ids : D.IdsOk ret
+  uniq : D.UniqueIds ret
+  refs : ∀ id ∈ Go.allNodes D.st (D.st.size + 2) [D.root], ∀ n, D.st.get? id = some n →
+    (n.ref ≠ "" → D.RefGood env top b ret id n.ref) ∧ (n.dynamicRef ≠ "" → D.RefGood env top b ret id n.dynamicRef)
+
+/-- the whole universe: the top document and every document of the Loader table -/
+structure UniverseOk (env : Env) (top : NodeId) (dr : Draft) (b : Uri.Url) : Prop where
+  /-- the top document is read under `dr` -/
+  topDr : topDraft env top = dr
+  /-- every Loader document declares no `$schema`, or one that selects `dr` -/
+  loaderDraft : ∀ tbl k r rn, env.loader = some tbl → Json.lookup k tbl = some (.doc r) → env.st.get? r = some rn →
+    (if rn.schema == "" then dr else Go.detectDraft env rn.schema) = dr
+  topDoc : DocWF env top b ⟨env.st, dr, top⟩ b
+  docs : ∀ tbl u r, env.loader = some tbl → Json.lookup (Uri.toString u) tbl = some (.doc r) → u.fragment = "" →
+    DocWF env top b ⟨env.st, dr, r⟩ u
+  coherent : Coherent env top dr b
+
 end Spec
 end JSV
